@@ -1,10 +1,10 @@
 #!/bin/sh
-# usage: tools/scratch_try.sh <seeded id> [PROP]   applies the patch in the scratch worktree /tmp/wt_test (created from /repo HEAD if missing),
+# usage: tools/scratch_try.sh <seeded id> [PROP]   applies the patch in the scratch worktree $WT (created from /repo HEAD if missing),
 # runs the property's quick check against it (VERIF_REPO), reverts.  /repo itself is not touched.
-ID=$1; P=${2:-$(echo $ID | cut -d_ -f1)}
-[ -d /tmp/wt_test ] || git -C /repo worktree add -q --detach /tmp/wt_test HEAD
-git -C /tmp/wt_test checkout -q -- . && git -C /tmp/wt_test checkout -q --detach $(git -C /repo rev-parse HEAD) && git -C /tmp/wt_test apply $PWD/seeded/$ID/patch.diff || { echo "$ID APPLY-FAILED"; exit 9; }
-VERIF_REPO=/tmp/wt_test ./check $P > /tmp/scratch_out_$ID.txt 2>&1; rc=$?
+WT=${WT:-/tmp/wt_test}; ID=$1; P=${2:-$(echo $ID | cut -d_ -f1)}
+[ -d $WT ] || git -C /repo worktree add -q --detach $WT HEAD
+git -C $WT checkout -q -- . && git -C $WT checkout -q --detach $(git -C /repo rev-parse HEAD) && git -C $WT apply $PWD/seeded/$ID/patch.diff || { echo "$ID APPLY-FAILED"; exit 9; }
+VERIF_REPO=$WT ./check $P > /tmp/scratch_out_$ID.txt 2>&1; rc=$?
 echo "== $ID $P exit=$rc"; grep -E "VIOLATION|divergences" /tmp/scratch_out_$ID.txt | grep -v " 0 divergences, 0 traces" | cut -c1-220
 grep -A1 "^VIOLATION" /tmp/scratch_out_$ID.txt | grep "^   " | cut -c1-220
-git -C /tmp/wt_test checkout -q -- .
+git -C $WT checkout -q -- .
